@@ -109,6 +109,10 @@ def gen(n, seed):
         for (k, kind, var) in s.sites:
             cands.append({"file": f, "node": k, "kind": kind, "variant": var})
     rnd.shuffle(cands)
+    prev = os.path.join(V, "seeded", "mutation_candidates.json")
+    if seed != 1 and os.path.exists(prev):                    # a further batch: sites not drawn before
+        done = {(c["file"], c["node"], c["kind"], c["variant"]) for c in json.load(open(prev))["cands"]}
+        cands = [c for c in cands if (c["file"], c["node"], c["kind"], c["variant"]) not in done and c["file"] != "cocoasm/instruction.py"]   # (the table's constants were covered by batch 1)
     # spread over the files: at most 20% from any one file
     out, per = [], {}
     for c in cands:
@@ -118,7 +122,7 @@ def gen(n, seed):
         if len(out) >= n:
             break
     for i, c in enumerate(out):
-        c["id"] = "m%04d" % i
+        c["id"] = ("m%04d" % i) if seed == 1 else ("s%d_%04d" % (seed, i))
     os.makedirs(OUT, exist_ok=True)
     json.dump({"head": subprocess.check_output(["git", "-C", "/repo", "rev-parse", "HEAD"], text=True).strip(), "all_sites": len(cands), "cands": out},
               open(os.path.join(OUT, "cands.json"), "w"), indent=1)
